@@ -229,7 +229,69 @@ func c02Gen(t *rapid.T) c02Case {
 
 var _ io.Reader = (*c02FailReader)(nil)
 
+// c02Ext: the same invariants on trees enlarged by Extend (results deeper than any built-in path)
+type c02Ext struct {
+	Exts  []vfExt `json:"exts"`
+	Doc   vfB     `json:"doc"`
+	Limit uint32  `json:"limit"`
+}
+
+func c02ExtCheck(c c02Ext) vfResult {
+	var r vfResult
+	vfTreeSnapshot()
+	vfTreeRestore()
+	c02Registered = nil
+	defer func() { vfTreeRestore(); c02Registered = nil }()
+	for _, e := range c.Exts {
+		if err := e.apply(); err != nil {
+			return vfResult{Skip: "extend-parent-missing"}
+		}
+	}
+	m := vfDetectAt(c.Doc, c.Limit)
+	// registered names now include the extensions (bare type of each registered string)
+	c02Registered = map[string]bool{}
+	for _, n := range root.flatten() {
+		c02Registered[strings.ToLower(vfBare(n.mime))] = true
+	}
+	depth := len(vfChain(m)) - 1
+	_, labels, e := c02CheckValue(m, nil)
+	r.Labels = append(labels, "extended-tree")
+	r.Nontrivial = depth >= 4
+	if e != nil {
+		r.Err = fmt.Errorf("%v; after %d Extend calls, limit=%d doc=%s", e, len(c.Exts), c.Limit, vfQ(c.Doc))
+	}
+	r.Hash = vfHash(c.Doc, vfHashU(uint64(c.Limit), uint64(len(c.Exts))), []byte(fmt.Sprint(c.Exts)))
+	return r
+}
+
+func c02ExtGen(t *rapid.T) c02Ext {
+	var c c02Ext
+	parent := rapid.SampledFrom([]string{"", "text/plain", "application/rss+xml", "image/vnd.mozilla.apng", "application/vnd.oasis.opendocument.text-template", "application/geo+json", "application/zip", "text/html"}).Draw(t, "chainroot")
+	for i, n := 0, rapid.IntRange(1, 6).Draw(t, "chain"); i < n; i++ {
+		e := vfExt{Parent: parent, Mime: fmt.Sprintf("application/x-verif-%d", i), Ext: fmt.Sprintf(".vf%d", i), Pred: vfPred{Kind: "always"}}
+		c.Exts = append(c.Exts, e)
+		parent = e.Mime
+	}
+	switch rapid.IntRange(0, 3).Draw(t, "doc") {
+	case 0:
+		c.Doc = vfB(c02Gen(t).Doc)
+	case 1:
+		c.Doc = vfB(c03GenInput(t))
+	default:
+		c.Doc = vfGenSeed(t)
+	}
+	c.Limit = vfGenLimit(t, len(c.Doc))
+	return c
+}
+
 func TestVerif_C02(t *testing.T) {
+	defer vfStats.dump()
+	if vfOnlySub("extended") {
+		vfRun(t, vfSub[c02Ext]{Prop: "C02", Name: "extended", Checks: vfN(30000, 2000000), Gen: c02ExtGen, Check: c02ExtCheck})
+	}
+	if t.Failed() || !vfOnlySub("gen") {
+		return
+	}
 	vfRun(t, vfSub[c02Case]{Prop: "C02", Name: "gen", Checks: vfN(150000, 8000000), Gen: c02Gen, Check: c02Check})
 }
 
